@@ -100,6 +100,15 @@ def worker(seed, widx, nworkers, plan, scratch):
             cfg["n_ops"] = min(cfg["n_ops"], 40)
         base = qsrun.run_generated(scratch, rng, cfg)
         if base["violation"] is not None:
+            bv = base["violation"]
+            if bv["class"].startswith("X-"):
+                # the server does not serve (or spins) already without any restart: nothing about
+                # restarts can be decided on this tree, and that is a failure, not a pass
+                violation = {"property": PROP, "seed": seed, "run_index": i, "pythonhashseed": 0, "config": dict(cfg),
+                             "epilogue": "A", "restart_positions": [], "steps": base["steps"], "choices": base["choices"],
+                             "violation": bv, "digest": base["digest"], "original_steps": base["steps"]}
+                st["runs"] += 1
+                break
             st["histories_skipped_foreign"] += 1
             i += nworkers
             continue
